@@ -6,6 +6,7 @@ package sim
 import (
 	"fmt"
 	"regexp"
+	"strconv"
 	"strings"
 	"unicode/utf8"
 
@@ -312,4 +313,31 @@ func init() {
 		}
 		return false
 	}
+}
+
+func init() {
+	shapePredicates["F-C08-peel-suffix-swallows-path"] = func(sc *Scenario, class, detail string) bool {
+		desc := describedAs(detail)
+		return desc != "" && strings.HasSuffix(desc, "}") && strings.Contains(desc, "^{")
+	}
+}
+
+// describedAs extracts the description from a C08 violation detail
+// (`... is described as "<desc>"; git rev-parse ...`).
+func describedAs(detail string) string {
+	const a, b = `is described as "`, `"; git rev-parse`
+	i := strings.Index(detail, a)
+	j := strings.LastIndex(detail, b)
+	if i < 0 || j < i+len(a) {
+		return ""
+	}
+	q := `"` + detail[i+len(a):j] + `"`
+	if s, err := strconv.Unquote(q); err == nil {
+		return s
+	}
+	return detail[i+len(a) : j]
+}
+
+func init() {
+	shapePredicates["F-C08-peel-suffix-swallows-path-unresolvable"] = shapePredicates["F-C08-peel-suffix-swallows-path"]
 }
